@@ -164,9 +164,9 @@ def drive_c03(sess, rnd, cfg, record):
             yield _emit(record, e)
         op = {"op": "observe", "ta": 25.0, "sh": 1, "kw": {}, "c03": klass}
         m = sess.model
-        if m.sys_phases:
+        if m.sys_phases and R.chance(0.6):
             op["kw"]["phase"] = R.pick(list(m.sys_phases.keys()))
-        if klass == "stress" or (klass == "micro" and R.chance(0.5)):
+        if klass == "stress" or (klass in ("micro", "modest") and R.chance(0.5 if klass == "micro" else 0.25)):
             op["kw"]["vtol"] = 10.0 ** R.randint(-9, -2)
             op["kw"]["itol"] = 10.0 ** R.randint(-9, -2)
             op["kw"]["maxiter"] = R.wpick([(0, 1), (1, 1), (2, 1), (3, 1), (5, 1), (10, 1), (100, 2), (1000, 2), (10000, 1)])
@@ -226,6 +226,9 @@ def drive_c05(sess, rnd, cfg, record):
             e = g.op_change(sess.model)
             if e:
                 yield _emit(record, e)
+            if R.chance(0.3):
+                for e in g.ops_rename_above_then_unlink(sess.model):
+                    yield _emit(record, e)
             if R.chance(0.4):
                 # the mux keeps its priority order across a restart
                 yield _emit(record, {"op": "restart", "replace": True})
